@@ -29,7 +29,7 @@ one() {
     echo "$n: patched tree does not build" > $TMP/$n
   else
     : > $TMP/$n
-    for id in ${CHECKS[$n]}; do
+    for id in ${CHECKS[$n]:-${n%%-*}}; do
       r=$(./check $id --tier quick --repo "$WT" 2>&1 | grep -E '^VIOLATION|^INCONCLUSIVE|^property=|^  ' | head -3 | cut -c1-260 | tr '\n' '|')
       if echo "$r" | grep -q VIOLATION; then v=CAUGHT; else v=missed; fi
       echo "$n $id $v :: $r" >> $TMP/$n
@@ -42,6 +42,10 @@ for n in $NAMES; do
   while [ $(jobs -r | wc -l) -ge 3 ]; do sleep 2; done
 done
 wait
-{ echo "# seeded changes vs checks (quick tier, VERIF_SEED default), /repo HEAD $(git -C /repo log -1 --format=%h), /verif $(git -C /verif log -1 --format=%h), $(date -u +%FT%TZ)"; for n in $NAMES; do cat $TMP/$n; done; } > $OUT
+# lines of changes that were not re-run are kept
+KEEP=$(mktemp); touch $OUT
+grep -v '^#' $OUT | while read -r line; do n=${line%% *}; n=${n%:}; echo " $NAMES " | tr '\n' ' ' | grep -q " $n " || echo "$line"; done > $KEEP
+{ echo "# seeded changes vs checks (quick tier, VERIF_SEED default); last run: /repo HEAD $(git -C /repo log -1 --format=%h), /verif $(git -C /verif log -1 --format=%h), $(date -u +%FT%TZ)"; { cat $KEEP; for n in $NAMES; do cat $TMP/$n; done; } | sort; } > $OUT
+rm -f $KEEP
 rm -rf $TMP
 grep -c CAUGHT $OUT; grep -E " missed |no longer|does not build" $OUT | cut -c1-120
